@@ -400,6 +400,45 @@ func c15Shapes(n int) []*jnode {
 	return out
 }
 
+// c15Deep builds a chain of `depth` nested containers, each an object or an array with up to two
+// small siblings before and after the nested child: deeper than any fixed-size state an outputter
+// may keep per level, with something still to write at every level on the way back out.
+func c15Deep(r *rand.Rand, depth int) *jnode {
+	n := c15Scalar(r)
+	for d := 0; d < depth; d++ {
+		p := &jnode{nodesN: 1}
+		obj := r.IntN(3) != 0
+		if obj {
+			p.kind = jkObject
+		} else {
+			p.kind = jkArray
+		}
+		seen := map[string]bool{}
+		add := func(kid *jnode) {
+			if obj {
+				name, _ := c15String(r)
+				key := string([]rune(name))
+				if seen[key] {
+					return
+				}
+				seen[key] = true
+				p.names = append(p.names, name)
+			}
+			p.kids = append(p.kids, kid)
+			p.nodesN += kid.nodesN
+		}
+		for i := r.IntN(3); i > 0; i-- {
+			add(c15Tree(r, 1, 2))
+		}
+		add(n)
+		for i := r.IntN(3); i > 0; i-- {
+			add(c15Tree(r, 1, 2))
+		}
+		n = p
+	}
+	return n
+}
+
 func c15Case(c *core.Ctx, idx int) {
 	rec := c.Rec
 	if idx < 5 {
@@ -421,6 +460,12 @@ func c15Case(c *core.Ctx, idx int) {
 	docs := 1 + r.IntN(20)
 	for d := 0; d < docs; d++ {
 		n := c15Tree(r, r.IntN(9), 2+r.IntN(11))
+		if idx%7 == 3 && r.IntN(8) == 0 {
+			dp := []int{20, 62, 63, 64, 65, 66, 100, 129, 200, 300}[r.IntN(10)]
+			n = c15Deep(r, dp)
+			rec.Count("deep_chains", 1)
+			rec.Max("nesting_depth", float64(dp))
+		}
 		var fresh plenccodec.JSONOutput
 		a, ok := c15Check(c, &fresh, n)
 		if !ok {
@@ -469,7 +514,7 @@ func init() {
 	core.Register(&core.Prop{
 		ID:        "C15",
 		Technique: "call-tree monitor: the real JSONOutput driven with generated and exhaustively enumerated well-nested call sequences; output parsed by encoding/json (UseNumber) and compared with the call tree; Reset/reuse histories compared with fresh outputters",
-		Rule: "cases 0-4 enumerate ALL call trees with 1..5 calls over {Int64, String, object, array}; the other cases are Reset/reuse histories of 1-20 random trees (depth <= 8, width <= 12, every adjacency of scalar/object/array/empty container) whose strings and field names cover every byte value in first/middle/last position, all pairs of JSON-significant bytes, U+2028/2029, multi-byte and invalid UTF-8, int64/uint64 limits, finite float64/float32 incl. -0, denormals and the 1e21/1e-7 format switches, times, Raw(null/number). " +
+		Rule: "cases 0-4 enumerate ALL call trees with 1..5 calls over {Int64, String, object, array}; the other cases are Reset/reuse histories of 1-20 random trees (depth <= 8, width <= 12; now and then a chain of 20..300 nested containers with siblings before and after the nested child at every level, every adjacency of scalar/object/array/empty container) whose strings and field names cover every byte value in first/middle/last position, all pairs of JSON-significant bytes, U+2028/2029, multi-byte and invalid UTF-8, int64/uint64 limits, finite float64/float32 incl. -0, denormals and the 1e21/1e-7 format switches, times, Raw(null/number). " +
 			"Invalid UTF-8 is compared after the replacement encoding/json performs. distinct = distinct call trees with more than one call",
 		Assume:     []string{"encoding/json as the independent parser"},
 		Exhaustive: []string{"all call trees with <= 5 calls over {Int64, String, object, array}"},
